@@ -38,7 +38,13 @@ def main():
         t0 = time.time()
         alarms = {}
         for c in ALL:
-            cp = sh([os.path.join(V, "check"), c, "--tier", "quick"], cwd=V)
+            extra = []
+            div = int(os.environ.get("REFACTOR_CASES_DIV") or 1)
+            if div > 1:
+                sys.path.insert(0, V)
+                import importlib
+                extra = ["--cases", str(max(100, importlib.import_module("fsim.checks." + c.lower()).CHECK.cases["quick"] // div))]
+            cp = sh([os.path.join(V, "check"), c, "--tier", "quick"] + extra, cwd=V)
             out = cp.stdout.decode("utf-8", "replace")
             if cp.returncode:
                 alarms[c] = [cp.returncode] + sorted({l.split("signature=")[1].split(" ")[0] for l in out.splitlines() if "signature=" in l and "KNOWN" not in l})[:3]
